@@ -55,6 +55,7 @@ def run(ctx):
     siblings_agree(ctx, "T4-siblings-agree", "<num_rational::Ratio<num_bigint::BigInt> as geometry::traits::Entry>::clear_col",
                    "geometry::modular_solver::<impl geometry::traits::Entry for geometry::prime_residue_classes::PrimeResidueClass<P>>::clear_col", "field clear_col ~ field clear_col")
     i64_row_step(ctx, g)
+    closed_form_determinants(ctx, g)
     ctx.clauses.append("gcdx is extended Euclid: r*A + s*B = +-gcd, t*A + u*B = 0, r*u - s*t = +-1 for every input (loop invariant decided on sampled states)")
     gx = ctx.body("geometry::traits::gcdx")
     ctx.scan([gx])
@@ -173,6 +174,83 @@ def i64_row_step(ctx, g):
 
 def stripcalls(t):
     return map_term(strip(t) if isinstance(t, tuple) else t, lambda x: (x[0], x[1], tuple(strip(a) for a in x[2])) if x[0] == "call" else (strip(x) if x[0] in ("ref", "deref") else None))
+
+
+def closed_form_determinants(ctx, g):
+    """the determinants of 0x0 .. 3x3 matrices are closed formulas (only larger ones go through the echelon form): each arm of the match on
+    the size is evaluated on sampled integer matrices and must equal the Leibniz determinant"""
+    import random
+    ctx.clauses.append("closed-form determinants for sizes 0..3 equal the Leibniz formula (T4, arms evaluated on sampled matrices)")
+    rnd = random.Random(5)
+
+    def det(m):
+        n = len(m)
+        if n == 0:
+            return 1
+        if n == 1:
+            return m[0][0]
+        return sum((-1) ** j * m[0][j] * det([row[:j] + row[j + 1:] for row in m[1:]]) for j in range(n))
+    for name in ("geometry::vec_matrix::VecMatrix::<T>::determinant", "geometry::matrix::Matrix::<T, N, N>::determinant"):
+        b = ctx.body(name)
+        ctx.scan([b])
+        me = ("param", 1, b.debug.get(1, ""))
+        arms = {}
+        for bi, blk in b.live_blocks():
+            t = blk["term"]
+            if t["k"] == "switch" and len(t["targets"]) >= 3:
+                d = norm(b.origin(t["discr"]), g)
+                if not (contains(d, lambda y: y == me) and ("nr_rows" in str(d))):
+                    continue
+                for v, tg in t["targets"]:
+                    cur, val, seen = tg, None, set()
+                    while cur is not None and cur not in seen:
+                        seen.add(cur)
+                        blk2 = b.blocks[cur]
+                        for s in blk2["stmts"]:
+                            if s["k"] == "assign" and s["place"]["l"] == 0 and not s["place"]["p"]:
+                                val = norm(b.rv_origin(s["rv"]), g)
+                        tt = blk2["term"]
+                        if tt["k"] == "call" and tt["dest"]["l"] == 0 and not tt["dest"]["p"]:
+                            val = norm(("call", tt["callee"].get("def"), tuple(b.origin(a) for a in tt["args"])), g)
+                        nx = [x for x in b.succ().get(cur, []) if x not in b.panic_blocks()]
+                        if val is not None or len(nx) != 1:
+                            break
+                        cur = nx[0]
+                    arms[v] = val
+        ctx.floor("closed-form arms of %s" % name.split("::")[-2], len(arms), 3)
+        bad = None
+        for n, val in sorted(arms.items()):
+            if val is None or n > 3:
+                continue
+            val = fold_std_ops(val)
+
+            def entry(x):
+                """(i, j) if x is self[i][j] in one of its lowered forms"""
+                x = strip(x)
+                if x[0] == "index" and eval_int(x[2]) is not None:
+                    inner = strip(x[1])
+                    if (is_call(inner, "Index::index") and strip(inner[2][0]) == me and eval_int(inner[2][1]) is not None):
+                        return (eval_int(inner[2][1]), eval_int(x[2]))
+                    if inner[0] == "index" and strip(inner[1]) == me and eval_int(inner[2]) is not None:
+                        return (eval_int(inner[2]), eval_int(x[2]))
+                if is_call(x, "Index::index") and eval_int(x[2][1]) is not None:
+                    inner = strip(x[2][0])
+                    if is_call(inner, "Index::index") and strip(inner[2][0]) == me and eval_int(inner[2][1]) is not None:
+                        return (eval_int(inner[2][1]), eval_int(x[2][1]))
+                return None
+            ents = {x: entry(x) for x in subterms(val) if entry(x) is not None}
+            for _ in range(6):
+                m = [[rnd.randint(-7, 7) for _ in range(n)] for _ in range(n)]
+                env = {x: m[ij[0]][ij[1]] for x, ij in ents.items() if ij[0] < n and ij[1] < n}
+                if len(env) != len(ents):
+                    bad = bad or "the %dx%d arm reads an entry outside the matrix" % (n, n)
+                    break
+                got = eval_term_env(val, env)
+                if got != det(m):
+                    bad = bad or "the %dx%d arm evaluates to %s on %s, the determinant is %d" % (n, n, got, m, det(m))
+                    break
+        ctx.ob("T4-closed-form-determinant", name, "arms 0..3", "ok" if not bad else "violation",
+               "each closed formula equals the Leibniz determinant on 6 sampled integer matrices" if not bad else bad)
 
 
 def padic_steps(ctx, g):
